@@ -225,7 +225,12 @@ func firstOf(log []string, op string) string {
 // WrapUnwrap: wrap with one plugin under arbitrary regional failures, unwrap with the same or the other plugin
 // under arbitrary regional failures.
 func WrapUnwrap() {
-	n := 1 + vx.Choice("regions", vx.Param("maxregions"))
+	// minregions..maxregions regions (a spec entry may pin the count, e.g. exactly three)
+	lo := vx.Param("minregions")
+	if lo < 1 {
+		lo = 1
+	}
+	n := lo + vx.Choice("regions", vx.Param("maxregions")-lo+1)
 	preferred := regions[vx.Choice("preferred", n)]
 	wv := 1 + vx.Choice("wrap_version", 2)
 	uv := 1 + vx.Choice("unwrap_version", 2)
